@@ -49,6 +49,8 @@ int __real_usleep(useconds_t);
 unsigned __real_sleep(unsigned);
 int __real_sched_yield(void);
 long __real_syscall(long n, ...);
+int __real_open(const char *path, int flags, ...);
+int __real_open64(const char *path, int flags, ...);
 int __real_sigprocmask(int how, const sigset_t *set, sigset_t *old);
 int __real_pthread_sigmask(int how, const sigset_t *set, sigset_t *old);
 int __real_sigaction(int signo, const struct sigaction *act, struct sigaction *old);
@@ -173,6 +175,7 @@ const char *fault_name(unsigned kind) {
     case F_SPURIOUS: return "spurious_wakeup";
     case F_COND_ANY: return "cond_any_waiter";
     case F_STALL: return "thread_stall";
+    case F_OPEN_FAIL: return "open_fails";
   }
   return "?";
 }
@@ -186,6 +189,8 @@ void fault_scope(uint64_t fseed, unsigned mask) {
 void fault_rate(unsigned kind, unsigned permille) { g_frate[kind_index(kind)] = permille; }
 void fault_late_max_ms(long ms) { g_late_max_ms = ms; }
 void fault_stall_max_ms(long ms) { g_stall_max_ms = ms > 0 ? ms : 1; }
+static char g_open_prefix[256];
+void fault_open_prefix(const char *p) { strncpy(g_open_prefix, p ? p : "", sizeof(g_open_prefix) - 1); }
 void fault_fd(int fd, bool on) {
   Ig ig_;
   if (on) { g_fault_fds->insert(fd); g_nofault_fds->erase(fd); }
@@ -498,6 +503,7 @@ void start(const Plan &plan) {
   g_frate[kind_index(F_SPURIOUS)] = 50;
   g_frate[kind_index(F_COND_ANY)] = 500;
   g_frate[kind_index(F_STALL)] = 25;
+  g_frate[kind_index(F_OPEN_FAIL)] = 300;
 
   g_sched = plan.sched;
   g_srng = Rng(g_sched.seed, "schedule");
@@ -849,6 +855,24 @@ long __wrap_syscall(long n, ...) {
   va_end(ap);
   if (n == SYS_gettid && g_active && t_self != nullptr) return 100000 + t_self->id;
   return __real_syscall(n, a1, a2, a3, a4, a5, a6);
+}
+
+// Creating or opening a file can fail for reasons outside the program (descriptor table full): a transient EMFILE.
+static bool open_fault(const char *path) {
+  if (!g_active || t_self == nullptr || !path || !g_open_prefix[0]) return false;
+  if (strncmp(path, g_open_prefix, strlen(g_open_prefix)) != 0) return false;
+  Ig ig_;
+  return fault(F_OPEN_FAIL);
+}
+int __wrap_open(const char *path, int flags, ...) {
+  va_list ap; va_start(ap, flags); mode_t mode = (mode_t)va_arg(ap, int); va_end(ap);
+  if (open_fault(path)) { errno = EMFILE; return -1; }
+  return __real_open(path, flags, mode);
+}
+int __wrap_open64(const char *path, int flags, ...) {
+  va_list ap; va_start(ap, flags); mode_t mode = (mode_t)va_arg(ap, int); va_end(ap);
+  if (open_fault(path)) { errno = EMFILE; return -1; }
+  return __real_open64(path, flags, mode);
 }
 
 // Changing the signal mask or a disposition is a point at which the thread can lose the processor: code that
